@@ -173,6 +173,56 @@ def _names_in(e):
     return {x.id for x in ast.walk(e) if isinstance(x, ast.Name)} if e is not None else set()
 
 
+def _whole_assignee(run, P):
+    """A statement that takes over the assignee *name* of the statement being rewritten
+    writes the whole variable: right only if that statement does too (its left-hand side is
+    a plain variable / it has no subscript), or if the subscript is taken over as well."""
+    from .util import path_conditions
+    m = P.module("dagrt.codegen.transform")
+    n = 0
+    units = [f for c in m.classes.values() for f in c.methods.values()] + list(m.functions.values())
+    for f in units:
+        for x in ast.walk(f.node):
+            if not isinstance(x, ast.Call):
+                continue
+            taken = [k for k in x.keywords if k.arg in ("assignee", "assignees")
+                     and any(isinstance(y, ast.Attribute) and y.attr == "assignee"
+                             and isinstance(y.value, ast.Name) for y in ast.walk(k.value))]
+            if not taken:
+                continue
+            src = next(y.value.id for y in ast.walk(taken[0].value)
+                       if isinstance(y, ast.Attribute) and y.attr == "assignee" and isinstance(y.value, ast.Name))
+            n += 1
+            with_sub = any(k.arg == "assignee_subscript" and f"{src}.assignee_subscript" in norm(k.value, 200)
+                           for k in x.keywords)
+
+            def guarded(fn, node):
+                st_ = next((s_ for s_ in ast.walk(fn.node) if isinstance(s_, ast.stmt)
+                            and not isinstance(s_, (ast.If, ast.For, ast.While, ast.FunctionDef, ast.Try))
+                            and any(y is node for y in ast.walk(s_))), None)
+                if st_ is None:
+                    return False
+                for t, pol in path_conditions(fn.node, st_):
+                    if pol and re.search(r"isinstance\(\w+\.lhs, Variable\)", t):
+                        return True
+                    if re.search(r"\w+\.assignee_subscript\b", t) and (
+                            (pol is False and not t.startswith("not ")) or (pol and t.startswith("not "))):
+                        return True
+                return False
+            ok = with_sub or guarded(f, x)
+            if not ok and f.cls is not None:
+                # the guard may stand at the only place that calls this helper
+                sites = [(g_, c_) for g_ in f.cls.methods.values() for c_ in ast.walk(g_.node)
+                         if isinstance(c_, ast.Call) and (dotted(c_.func) or "").endswith("." + f.name)]
+                ok = len(sites) == 1 and guarded(sites[0][0], sites[0][1])
+            run.ob("C07.guard", f, x, ok,
+                   construct=f"{norm(x.func, 40)}(... assignee={norm(taken[0].value, 30)}): the whole variable is "
+                             f"written only if '{src}' writes the whole variable",
+                   why="x[i] <- f(y) turned into x <- f(y) replaces the array by one entry's value")
+    run.ob("C07.guard", m, None, True,
+           construct=f"transform.py: {n} statement(s) that take over an assignee examined", why="scan summary")
+
+
 def _check_main(run, P):
     run.rule("C07.fresh", "ids of constructed statements come from stmt_id_gen, "
              "introduced variables from var_name_gen; both generators are seeded "
@@ -236,6 +286,7 @@ def _check_main(run, P):
     run.do(_append_only, run, P)
     run.do(carry, run, P, "C07.carry")
     run.do(_ids_used, run, P)
+    run.do(_whole_assignee, run, P)
     from . import c06 as _c06
     run.do(_c06.simplify_callers, run, P, "C07.guard")
 
